@@ -14,7 +14,7 @@
     The join of the pinned code violates the property ([C04_pinned_inner_join_refuted]); the model has
     the repaired join behind [sk_inner_pivot]. All theorems below hold for both values of the flag. *)
 From Coq Require Import ZArith Reals List Bool Lra.
-From KV Require Import Scalar RInst F64 Geom Curves Path Affine Stroke StrokeSpec C04_proofs C04_round C04_region C04_pieces C04_polyregion C04_polyfill C04_polyclosed C04_witness.
+From KV Require Import Scalar RInst F64 Geom Curves Path Affine Stroke StrokeSpec C04_proofs C04_round C04_region C04_pieces C04_polyregion C04_polyfill C04_polyclosed C04_fans C04_reach C04_multi C04_styles C04_witness.
 Import ListNotations.
 Local Open Scope R_scope.
 
@@ -430,6 +430,84 @@ Proof.
   exact (closed_polyline_region_thm st q Hw Hb Hp tol p0 ps p1 r out E Ha Hc Ho).
 Qed.
 
+(** ** several sub-paths; the outer bound for every style without round parts
+
+    A path is a list of sub-paths ([subpath]: start point, further points, closed or not); [path_els] are its
+    elements, [sub_edges] the non-degenerate edges of a sub-path (closing edge included). *)
+
+(** the outline of a path is the concatenation of the outlines of its sub-paths: what a sub-path leaves in
+    the context (normals, tangents) is never read by the next one. Any scalar type, any style. *)
+Theorem C04_outline_of_subpaths_concatenates :
+  forall (T : Type) (S : Scalar T) (st : StrokeStyle T) (tol : T) (A : list (PathEl T)) (p : Point T)
+         (B oa ob : list (PathEl T)),
+  stroke_undashed A st tol = Some oa -> stroke_undashed (MoveTo p :: B) st tol = Some ob ->
+  stroke_undashed (A ++ MoveTo p :: B) st tol = Some (oa ++ ob).
+Proof. intros T S st tol A p B oa ob. exact (stroke_concat st tol A p B oa ob). Qed.
+
+(** (3) the outer bound, for the filled region: bevel or miter joins (within or beyond the limit, emitted or
+    skipped, pinned or repaired inner side), butt or square caps, any tolerance, any number of open and
+    closed sub-paths, degenerate points anywhere: the outline does not wind around any point q that is
+    farther than the style's reach sqrt(reach2) - width/2, times sqrt 2 with a square cap, times the miter
+    limit with miter joins - from every point of every edge. (Proof: the outline is a sum of closed
+    polygons - a fan at every vertex, a generalised rectangle along every edge, the caps - each of which
+    stays within reach of one vertex or one edge, hence on the far side of a line through q.) *)
+Theorem C04_fill_within_reach :
+  forall (st : StrokeStyle R) (q : Point R) (tol : R) (subs : list subpath) (out : list (PathEl R)),
+  0 < sk_width st -> sk_join st <> JoinRound -> sk_start_cap st <> CapRound -> sk_end_cap st <> CapRound ->
+  stroke_undashed (path_els subs) st tol = Some out ->
+  (forall a b, In (a, b) (flat_map sub_edges subs) -> seg_far a b q (reach2 st)) ->
+  outline_wn out q = 0%Z.
+Proof.
+  intros st q tol subs out Hw Hj Hs He Ho Hf.
+  exact (path_reach_thm st Hw Hj Hs He q tol subs out Ho Hf).
+Qed.
+
+(** (1) the property for a whole path with bevel joins, butt caps, the repaired join and no skipped join:
+    covered wherever some edge of some sub-path has the foot of q strictly inside and q closer than
+    width/2; not wound around beyond width/2 of every edge; never negative - overlaps between sub-paths
+    only add. *)
+Theorem C04_path_region :
+  forall (st : StrokeStyle R) (q : Point R) (tol : R) (subs : list subpath) (out : list (PathEl R)),
+  0 < sk_width st -> sk_join st = JoinBevel -> sk_inner_pivot st = true ->
+  sk_start_cap st = CapButt -> sk_end_cap st = CapButt ->
+  stroke_undashed (path_els subs) st tol = Some out -> Forall (sub_emitted st tol) subs ->
+  let w := sk_width st in
+  let edges := flat_map sub_edges subs in
+  (forall a b, In (a, b) edges ->
+     0 < foot_par a b q < 1 -> -1 < rel_dist w a b q < 1 -> (1 <= outline_wn out q)%Z) /\
+  ((forall a b, In (a, b) edges -> seg_far a b q ((w / 2) * (w / 2))) -> outline_wn out q = 0%Z) /\
+  (0 <= outline_wn out q)%Z.
+Proof.
+  intros st q tol subs out Hw Hb Hp Hs He Ho Hem.
+  exact (path_region_thm st Hw Hb Hp Hs He q tol subs out Ho Hem).
+Qed.
+
+(** (2) + (1) + (3) together: the property for a whole path in every style without round parts - bevel or
+    miter joins (the miter kite within the limit, bevel beyond it), butt or square caps (the cap
+    rectangles), any number of open and closed sub-paths - with the repaired join and no join skipped:
+    - covered: wherever the foot of q on some edge is strictly interior and q is closer than width/2 to it,
+      the outline winds at least once around q;
+    - not beyond the reach: farther than sqrt(reach2) from every edge the outline does not wind around q
+      (this half needs neither the repaired join nor "no join skipped": [C04_fill_within_reach]);
+    - the winding number is never negative.
+    (Every extra piece - outer bevel triangle, miter kite, cap rectangle - is a fan of positively oriented
+    triangles around a source vertex; the inner side passes through the vertex and contributes nothing.) *)
+Theorem C04_path_region_all_styles :
+  forall (st : StrokeStyle R) (q : Point R) (tol : R) (subs : list subpath) (out : list (PathEl R)),
+  0 < sk_width st -> sk_join st <> JoinRound -> sk_inner_pivot st = true ->
+  sk_start_cap st <> CapRound -> sk_end_cap st <> CapRound ->
+  stroke_undashed (path_els subs) st tol = Some out -> Forall (sub_emitted st tol) subs ->
+  let w := sk_width st in
+  let edges := flat_map sub_edges subs in
+  (forall a b, In (a, b) edges ->
+     0 < foot_par a b q < 1 -> -1 < rel_dist w a b q < 1 -> (1 <= outline_wn out q)%Z) /\
+  ((forall a b, In (a, b) edges -> seg_far a b q (reach2 st)) -> outline_wn out q = 0%Z) /\
+  (0 <= outline_wn out q)%Z.
+Proof.
+  intros st q tol subs out Hw Hj Hp Hs He Ho Hem.
+  exact (path_style_region_thm st Hw Hj Hp Hs He q tol subs out Ho Hem).
+Qed.
+
 (** ** the pinned join violates the property; the repaired join does not (on the witness)
 
     binary64 instance, every number exactly representable ([witness_path] etc. in proofs/C04_witness.v):
@@ -492,15 +570,19 @@ Qed.
     - every point q whose foot on some source segment (a, b) is strictly inside it and whose distance to
       that segment is below width/2 has non-zero winding number;
     - every point farther than sqrt(reach2) from every source segment has winding number 0.
-    Proved of it: [C04_open_polyline_region] (one open sub-path, butt caps) and [C04_closed_polyline_region]
-    (one closed sub-path), both for bevel joins, every turn at or above the join threshold, repaired join;
-    and [C04_single_segment_butt_region]. Missing for [C04_full_polyline]:
-    (1) several sub-paths (the winding numbers add; more chain algebra, same pieces); (2) the pieces of the other styles: the miter quadrilateral and the square-cap rectangles
-    (convex, positively traversed: same kind of case analysis as [rect_wn] / [tri_wn]); (3) turns below
-    the join threshold: the join is skipped, the outline then cuts a corner of depth <= tolerance,
-    so the statement holds only outside a band of that width (the exact statement above assumes no
-    such turn; for tolerance 0 there is none); (4) [source_segments] below is phrased with [segments] (Path.v) and would have to be
-    related to [poly_edges]. With the pinned join the statement is false (see above).
+    Proved of it: [C04_path_region_all_styles] - both halves, exactly (no band), for every path that is a
+    list of sub-paths each starting with MoveTo, in every style without round parts, with the repaired
+    join, PROVIDED no turn falls below the join threshold ([sub_emitted]; always so for tolerance 0) -
+    and [C04_fill_within_reach] - the outer half without that proviso and for either join.
+    What exactly remains for [C04_full_polyline]:
+    (1) the inner half when some turn is below the join threshold (tolerance > 0 and an angle with
+    |sin| < 2 tolerance / width, other than exactly straight): the join is skipped, the outline cuts the
+    outer corner by at most the tolerance, so [covered] holds only with the band; that needs a bound on
+    the area lost, not just the sign bookkeeping used here;
+    (2) element lists that are not of the form [path_els subs]: a leading LineTo (sub-path from the
+    origin) and LineTo directly after ClosePath (the model and the structure theorems cover them, the
+    region theorems do not), and the link between [source_segments] (phrased with [segments] of Path.v)
+    and [sub_edges]. With the pinned join the inner half is false (see above).
     For round joins/caps and for curve elements there is not even a model:
     [do_cubic] -> [CubicOffset::new_regularized] -> [fit_to_bezpath] (curve fitting with an accuracy test
     by sampling) and [Arc::append_iter] (4/3 tan(step/4) arms: radial error 2.7e-4 per quarter turn at the
